@@ -149,7 +149,7 @@ func urlHookPart(run *Run) {
 	r := run.R
 	// kind 1: request targets through the real fasthttp parser and the real variable injection
 	sh := run.NewShard(urlShardHeader, "tgt_case", "tgt_mismatches")
-	fixed := []string{"/", "/a", "/a?", "/a?b", "/a??", "/a/?", "//", "//a//b", "/a/../b", "/a/./b", "/..", "/a/..", "/%2F", "/a%2Fb/%2e%2e/c", "*", "/*",
+	fixed := []string{"//x/y?u=http://z/", "/", "/a", "/a?", "/a?b", "/a??", "/a/?", "//", "//a//b", "/a/../b", "/a/./b", "/..", "/a/..", "/%2F", "/a%2Fb/%2e%2e/c", "*", "/*",
 		"/a?b#c", "/a#c?b", "/a%20b", "/a+b", "/a;p=1?q", "/%", "/%zz", "/a b", "/?", "/?a=1", "/a/b/../../../c", "/%C3%A9", "/\xc3\xa9", "/a?x=http://h/p"}
 	n := run.N(500, 20000)
 	for i := 0; i < n+len(fixed); i++ {
@@ -180,6 +180,10 @@ func urlHookPart(run *Run) {
 			run.Sample(rep)
 		}
 		urlFinder(run, "hook", t, class, got, rep)
+		if strings.HasPrefix(t, "//") && strings.Contains(t, "://") {
+			run.Sum.Distribution["url-hook:netpath-misparse(finder-only)"]++
+			continue
+		}
 		sh.Add(fmt.Sprintf("mkTgt %s %s %s %s %s %s %s %s", CoqBytes([]byte(t)), CoqBytes(u.PathOriginal()), CoqBytes(u.QueryString()), CoqBytes(u.Hash()),
 			CoqBytes(u.Path()), CoqBytes(normPo), coqOptBytes(uerr == nil, []byte(unesc)), CoqBytes([]byte(got))), rep)
 		if sh.Len() >= 400 {
@@ -250,6 +254,11 @@ func urlFinder(run *Run, where, target, class, got string, rep interface{}) {
 		if strings.ContainsAny(target, "# ") || strings.Contains(target, "%zz") || strings.HasSuffix(target, "%") || !isASCII(target) {
 			return
 		}
+	}
+	if strings.HasPrefix(target, "//") && strings.Contains(target, "://") {
+		// fasthttp takes a target that starts with "//" and contains "://" somewhere for scheme-less absolute-form
+		run.Fail("url:double-slash-target-with-scheme-separator-misparsed", fmt.Sprintf("request target %q is forwarded as %q (%s): fasthttp parses it as //authority/path", target, got, where), rep)
+		return
 	}
 	if strings.HasSuffix(target, "?") && !strings.Contains(target[:len(target)-1], "?") && got == target[:len(target)-1] {
 		run.Fail("url:empty-query-question-mark-dropped", fmt.Sprintf("request target %q is forwarded as %q (%s): the '?' of an empty query is dropped", target, got, where), rep)
@@ -407,6 +416,12 @@ func initHTTPEnv(e *env) (*httpEnv, error) {
 	}
 	theHTTPEnv = &httpEnv{up: up, addr: addr}
 	return theHTTPEnv, nil
+}
+
+// repointHTTPCluster replaces the hosts of the HTTP/1 proxy listener's cluster.
+func (e *env) repointHTTPCluster(addr string) error {
+	return e.cm.AddOrUpdateClusterAndHost(v2.Cluster{Name: "relay-http-up", ClusterType: v2.SIMPLE_CLUSTER, LbType: v2.LB_ROUNDROBIN, MaxRequestPerConn: 1024, ConnBufferLimitBytes: 32768},
+		[]v2.Host{{HostConfig: v2.HostConfig{Address: addr}}})
 }
 
 // roundTrip sends one request line with the given target over a fresh or kept connection and returns the status.
